@@ -105,13 +105,13 @@ def run(ctx):
                 else:
                     ctx.cov["reloader_thread_traces_validated"] = ctx.cov.get("reloader_thread_traces_validated", 0) + 1
                     os.remove(th)
-            if callers > 4:
-                # the unlogged mailbox steps of more than 4 concurrent callers make the search of Trace_Answers explode
-                # (4 callers: 5*10^5 states); these runs keep the blocked-caller watchdog and the thread automaton
+            verdict, tr, detail = vlib.trace_check("Trace_Answers", "Trace_Answers.cfg", out, name=f"c08-{mode}-{sd}", timeout=600)
+            if verdict == "error" and callers > 4 and "timeout" in str(detail):
+                # the unlogged mailbox steps of many concurrent callers can make the search of Trace_Answers exceed its budget
+                # (8 paced callers: about 10^6 states); such a run keeps the blocked-caller watchdog and the thread automaton
                 runs[-1]["mailbox_trace_validated"] = False
                 os.remove(out)
                 continue
-            verdict, tr, detail = vlib.trace_check("Trace_Answers", "Trace_Answers.cfg", out, name=f"c08-{mode}-{sd}", timeout=900)
             if verdict == "error":
                 raise vlib.ToolError(f"trace validation failed to run: {detail}")
             if verdict != "accepted":
